@@ -247,12 +247,49 @@ Proof.
   rewrite apply_write_noop by (assumption || lia). apply IH; assumption.
 Qed.
 
+(** the creation-time check accepts exactly what the header stores faithfully *)
+Lemma drop0_head l : head_nonzero l = true -> drop0 l = l.
+Proof. destruct l as [|b r]; [reflexivity|]. cbn. intros H. apply negb_true_iff in H. rewrite H. reflexivity. Qed.
+
+Lemma name_storable_field_ok s : name_storable s = true -> field_ok NAMEB s = true.
+Proof.
+  unfold name_storable, field_ok. rewrite !andb_true_iff. intros [[H1 H2] H3]. split; [exact H1|].
+  apply bytes_eqb_eq. unfold trim. rewrite (drop0_head _ H3), rev_involutive. apply drop0_head. exact H2.
+Qed.
+
+Lemma storable_check f : storable f = true -> check_storable f = true.
+Proof.
+  intros Hs. apply storable_spec in Hs. unfold check_storable. apply andb_true_intro. split.
+  - apply Z.leb_le. rewrite (sp_names_len _ Hs). exact (sp_nmax _ Hs).
+  - pose proof (sp_names _ Hs) as Hn. rewrite forallb_forall in Hn. apply forallb_forall. intros s Hin.
+    specialize (Hn _ Hin). apply field_ok_spec in Hn as [Hl Ht]. unfold name_storable.
+    apply Nat.leb_le in Hl. rewrite Hl. cbn [andb].
+    assert (Hh : forall l, drop0 l = l -> head_nonzero l = true).
+    { intros [|b r]; [reflexivity|]. cbn. destruct (Byte.eqb b x00) eqn:E; [|reflexivity].
+      intros H. exfalso. assert (Hlen : length (drop0 r) <= length r).
+      { clear. induction r as [|c r IH]; cbn; [lia|]. destruct (Byte.eqb c x00); cbn; lia. }
+      rewrite H in Hlen. cbn in Hlen. lia. }
+    unfold trim in Ht.
+    assert (Hlen0 : forall l, length (drop0 l) <= length l).
+    { induction l as [|c r IH]; cbn; [lia|]. destruct (Byte.eqb c x00); cbn; lia. }
+    assert (H1 : drop0 (rev s) = rev s).
+    { pose proof (Hlen0 (rev s)) as Ha. pose proof (Hlen0 (rev (drop0 (rev s)))) as Hb.
+      rewrite Ht, rev_length in Hb. rewrite rev_length in Ha.
+      (* drop0 only removes a prefix: equal length means nothing was removed *)
+      assert (Hsame : forall l, length (drop0 l) = length l -> drop0 l = l).
+      { intros [|c r]; [reflexivity|]. cbn. destruct (Byte.eqb c x00); [|reflexivity].
+        intros H. pose proof (Hlen0 r). cbn in H. lia. }
+      apply Hsame. rewrite rev_length. lia. }
+    rewrite H1, rev_involutive in Ht.
+    rewrite (Hh _ Ht), (Hh _ H1). reflexivity.
+Qed.
+
 (** create, write, restart, read back *)
 Theorem create_write_reload_ok f ws :
   storable f = true -> writes_ok ws = true -> create_write_reload f ws = Ok f.
 Proof.
   intros Hs Hw. destruct (header_roundtrip f Hs) as (h & He & Hl & Hr).
-  unfold create_write_reload. rewrite He. cbn [bindR].
+  unfold create_write_reload, create. rewrite (storable_check f Hs), He. cbn [bindR].
   apply storable_spec in Hs. pose proof (sp_rl _ Hs) as Hrl. pose proof (sp_rl0 _ Hs) as Hrl0.
   rewrite writes_preserve_header; [exact Hr|exact Hl| |exact Hw].
   unfold in_ity, ity_min, ity_max in Hrl. cbn [ity_signed ity_bits] in Hrl. norm_pows.
@@ -280,6 +317,12 @@ Qed.
 
 Lemma forallb_map' {A B} (g : A -> B) (p : B -> bool) l : forallb p (map g l) = forallb (fun x => p (g x)) l.
 Proof. induction l as [|x l IH]; [reflexivity|]. cbn. rewrite IH. reflexivity. Qed.
+
+Lemma forallb_filter {A} (p q : A -> bool) l : forallb p l = true -> forallb p (filter q l) = true.
+Proof.
+  induction l as [|x l IH]; cbn; [reflexivity|]. intros H. apply andb_prop in H as [H1 H2].
+  destruct (q x); cbn; [rewrite H1|]; auto.
+Qed.
 
 Lemma creatable_storable tf descr year dsv rt :
   creatable tf descr year dsv rt = true -> storable (new_tbi tf descr year dsv rt) = true.
@@ -313,3 +356,34 @@ Proof.
   - exact Ha.
   - rewrite Hb, Hc. reflexivity.
 Qed.
+
+(** the property's domain + the creation-time check = the guard [creatable] *)
+Lemma dom_check_creatable tf descr year dsv rt :
+  schema_dom tf descr year dsv rt = true -> check_storable (new_tbi tf descr year dsv rt) = true ->
+  creatable tf descr year dsv rt = true.
+Proof.
+  unfold schema_dom, check_storable, creatable, new_tbi. cbn [t_names]. set (sh := create_shapes dsv).
+  rewrite !andb_true_iff, map_length. intros [[[[H1 H2] H3] H4] H5] [H6 H7].
+  repeat split; try assumption.
+  rewrite forallb_map' in H7. rewrite forallb_forall in H7.
+  pose proof (forallb_filter _ (fun s => negb (bytes_eqb (fst s) epoch_col)) _ H5) as H5'.
+  fold (create_shapes dsv) in H5'. fold sh in H5'. rewrite forallb_forall in H5'.
+  apply forallb_forall. intros s Hs. specialize (H7 _ Hs). specialize (H5' _ Hs).
+  apply andb_prop in H5' as [Ha Hb]. rewrite (name_storable_field_ok _ H7), Ha, Hb. reflexivity.
+Qed.
+
+(** Every schema of the domain: creation is refused, or the schema survives any writes at indices >= 1
+    and a restart. *)
+Theorem create_guarded tf descr year dsv rt ws :
+  schema_dom tf descr year dsv rt = true -> writes_ok ws = true ->
+  let f := new_tbi tf descr year dsv rt in
+  create f = Rejected \/ create_write_reload f ws = Ok f.
+Proof.
+  intros Hd Hw f. destruct (check_storable f) eqn:E.
+  - right. apply create_write_reload_ok; [|exact Hw]. apply creatable_storable.
+    apply dom_check_creatable; assumption.
+  - left. unfold create. rewrite E. reflexivity.
+Qed.
+
+Theorem unstorable_rejected f : check_storable f = false -> create f = Rejected.
+Proof. intros H. unfold create. rewrite H. reflexivity. Qed.
